@@ -176,7 +176,8 @@ class Excel:
         suspicious_constructions = re.findall(r'[a-zA-Z_][a-zA-Z_\d]*\(.*?\)', value, re.DOTALL)
         if suspicious_constructions:
             # an upper-case function name may contain digits after its first letter (LOG10, ATAN2, DAYS360)
-            return [i for i in suspicious_constructions if not re.findall(r'[A-Z][A-Z\d]*\(.*?\)', i, re.DOTALL)]
+            # ... and is a whole identifier: the X of getX( or the B of a.B( is the tail of a name, not an Excel function
+            return [i for i in suspicious_constructions if not re.findall(r'(?<![a-zA-Z_\d])[A-Z][A-Z\d]*\(.*?\)', i, re.DOTALL)]
 
         return []
 
